@@ -42,7 +42,9 @@ def mask(ctx):
         S1 = ("<S'>",)
         rules_eos = live + [(1, S1, (sk.S, EOS))]
         V2 = set(sk.V) | {EOS}
-        for c in contexts:
+        # every context once in order of increasing length, then all of them again in reverse order on the
+        # SAME object (a parent context re-queried after its children must give the same mask)
+        for rnd, c in [(0, c) for c in contexts] + [(1, c) for c in reversed(contexts)]:
             okc, p = ctx.call(f"{alg}.p_next({c})", lm.p_next, c, sig=f"{alg}:p_next:exception")
             if not okc:
                 continue
@@ -55,7 +57,7 @@ def mask(ctx):
                 want.add(EOS)
             if P.get("canary"):
                 want = want ^ {V[0]}
-            ctx.check(f"{alg}: mask after {c}", got == want, detail=f"offered {sorted(got)} expected {sorted(want)}",
+            ctx.check(f"{alg}: mask after {c}" + (" (re-queried after longer contexts)" if rnd else ""), got == want, detail=f"offered {sorted(got)} expected {sorted(want)}",
                       sig=f"mask:{alg}:{P['shape']}:{''.join(c)}")
             ctx.check(f"{alg}: weights are 1", all(p[t] == 1 for t in got), sig=f"mask-values:{alg}")
 
